@@ -523,6 +523,8 @@ def ekey(e):
 
 def judge_surface(ctx, monitor, fn, extras, arr, R, env):
     """Compares one value array with the reference.  `monitor` is "ref" or "history"."""
+    rel = getattr(env, "rel", REL)                                         # 1e-9, or 1e-12 in the far-from-the-origin pass
+    postol = getattr(env, "pos_tol", None) or REL * (R.maxabs + R.lmax)    # positions: relative to the coordinates' magnitude
     if arr is None:
         return
     key = fn_key(fn, extras)
@@ -531,12 +533,12 @@ def judge_surface(ctx, monitor, fn, extras, arr, R, env):
     K = 1.0 / max(math.sin(min(R.tri_min_angle, math.pi / 2)), 0.05)
     if fn == "edge_length":
         exp = np.array([R.edge_len.get(ekey(e), np.nan) for e in env.E])
-        compare(ctx, monitor, op, arr, exp, REL * exp, what="|q-p|")
+        compare(ctx, monitor, op, arr, exp, rel * exp, what="|q-p|")
     elif fn == "edge_middle_point":
         exp = np.array([(V[a] + V[b]) / 2 for a, b in env.E])
-        compare(ctx, monitor, op, arr, exp, REL * (R.maxabs + R.lmax), what="(p+q)/2")
+        compare(ctx, monitor, op, arr, exp, postol, what="(p+q)/2")
     elif fn == "face_area":
-        compare(ctx, monitor, op, arr, R.area, REL * K * R.fdiam ** 2, judged=R.area_regular,
+        compare(ctx, monitor, op, arr, R.area, rel * K * R.fdiam ** 2, judged=R.area_regular,
                 what="area of the planar polygon (triangle, convex face, or non-convex face star-shaped around its vertex mean)")
         nstar = int(sum(1 for a, b in zip(R.face_nc, R.area_regular) if a and b))
         if nstar:
@@ -547,7 +549,7 @@ def judge_surface(ctx, monitor, fn, extras, arr, R, env):
             # the shoelace (Newell) area is just as unambiguous there; kept under its own op so that it is told apart
             hop = op + ":nonconvex_face"
             ctx.obs(monitor, hop, int(hard.sum()))
-            tolh = REL * K * R.fdiam ** 2
+            tolh = rel * K * R.fdiam ** 2
             with np.errstate(invalid="ignore"):
                 badh = hard & ~(np.abs(arr - R.area) <= tolh)
             if badh.any():
@@ -557,39 +559,39 @@ def judge_surface(ctx, monitor, fn, extras, arr, R, env):
                               "face_area of a planar simple non-convex face is not its shoelace area", face=env.FL[i],
                               points=R.V[env.FL[i]], got=arr[i], expected=R.area[i], n_bad=int(badh.sum()), n_judged=int(hard.sum()))
     elif fn == "face_normals":
-        compare(ctx, monitor, op, arr, R.normal, REL * K * 10, judged=R.face_ok, what="unit normal of the oriented face")
+        compare(ctx, monitor, op, arr, R.normal, rel * K * 10, judged=R.face_ok, what="unit normal of the oriented face")
         nc = np.array(R.face_nc)
         if nc.any():
             hop = op + ":nonconvex_face"
             ctx.obs(monitor, hop, int(nc.sum()))
             with np.errstate(invalid="ignore"):
-                badn = nc & ~(np.max(np.abs(arr - R.normal), axis=1) <= REL * K * 10)
+                badn = nc & ~(np.max(np.abs(arr - R.normal), axis=1) <= rel * K * 10)
             if badn.any():
-                neg = bool(np.all(np.max(np.abs(arr[badn] + R.normal[badn]), axis=1) <= REL * K * 10))
+                neg = bool(np.all(np.max(np.abs(arr[badn] + R.normal[badn]), axis=1) <= rel * K * 10))
                 i = int(np.argmax(badn))
                 ctx.violation(monitor, hop, "opposite_normal_on_planar_nonconvex_face" if neg else "values_differ",
                               "face_normals of a planar simple non-convex face is not the unit normal of the oriented face (Newell)",
                               face=env.FL[i], points=R.V[env.FL[i]], got=arr[i], expected=R.normal[i], n_bad=int(badn.sum()), n_judged=int(nc.sum()))
     elif fn == "face_barycenter":
-        compare(ctx, monitor, op, arr, R.fbary, REL * (R.maxabs + R.lmax), what="mean of the face's vertices")
+        compare(ctx, monitor, op, arr, R.fbary, postol, what="mean of the face's vertices")
     elif fn == "face_circumcenter":
-        judge_circumcentres(ctx, monitor, op, arr, [V[f] for f in R.F], R.maxabs, K)
+        judge_circumcentres(ctx, monitor, op, arr, [V[f] for f in R.F], R.maxabs, K, rel, getattr(env, "pos_tol", None))
     elif fn == "corner_angles":
         exp = np.array([R.angle.get((f, v), np.nan) for v, f in env.CN])
         # at a reflex corner of a non-convex face "the" corner angle is ambiguous (interior angle > pi vs angle between the edges): not judged
         jd = np.array([(f, v) not in R.reflex for v, f in env.CN])
-        compare(ctx, monitor, op, arr, exp, REL * 10, judged=jd, what="angle between the two face edges at the corner")
+        compare(ctx, monitor, op, arr, exp, rel * 10, judged=jd, what="angle between the two face edges at the corner")
     elif fn == "cotangent":
         exp = np.array([R.cot.get((f, v), np.nan) for v, f in env.CN])
-        compare(ctx, monitor, op, arr, exp, REL * 10 * (1 + exp ** 2), what="cotangent of the corner angle")
+        compare(ctx, monitor, op, arr, exp, rel * 10 * (1 + exp ** 2), what="cotangent of the corner angle")
     elif fn == "cotan_weights":
         ws = [R.cot_weight(a, b) for a, b in env.E]
         exp = np.array([w for w, _ in ws])
         big = np.array([b for _, b in ws])
         border = np.array([ekey(e) in R.border_edges for e in env.E])
-        ok = compare(ctx, monitor, op, arr, exp, REL * 10 * (1 + big ** 2), what="1/2 (cot alpha + cot beta)")
+        ok = compare(ctx, monitor, op, arr, exp, rel * 10 * (1 + big ** 2), what="1/2 (cot alpha + cot beta)")
         if not ok and border.any() and not border.all():
-            err = np.abs(arr - exp) > REL * 10 * (1 + big ** 2)
+            err = np.abs(arr - exp) > rel * 10 * (1 + big ** 2)
             if not err[~border].any():
                 ctx.violation(monitor, op, "wrong_on_border_edges_only", "cotangent weights are right on interior edges and wrong on border edges")
             elif not err[border].any():
@@ -606,11 +608,11 @@ def judge_surface(ctx, monitor, fn, extras, arr, R, env):
             exp = -exp
         if (~jd).any():
             ctx.note("vertex_normals_not_judged(ill_conditioned_or_warped_face)", int(np.sum(~jd)))
-        compare(ctx, monitor, op, arr, exp, REL * K * 10 / np.maximum(cond, 0.05), judged=jd, what="normalised %s-weighted sum of face normals" % w)
+        compare(ctx, monitor, op, arr, exp, rel * K * 10 / np.maximum(cond, 0.05), judged=jd, what="normalised %s-weighted sum of face normals" % w)
     elif fn == "angle_defects":
         zb = bool(extras.get("zero_border", False))
         exp = np.array([R.defect(v, zb) for v in range(R.nV)])
-        tol = REL * 10 * (1 + R.degree)
+        tol = rel * 10 * (1 + R.degree)
         ok = compare(ctx, monitor, op, arr, exp, tol, what="2pi - sum (interior), %s (border)" % ("0" if zb else "pi - sum"))
         if not ok and R.border_vertices and len(R.border_vertices) < R.nV:
             isb = np.array([v in R.border_vertices for v in range(R.nV)])
@@ -623,7 +625,7 @@ def judge_surface(ctx, monitor, fn, extras, arr, R, env):
         compare(ctx, monitor, op, arr, R.degree.astype(float), 0.0, what="number of adjacent vertices")
     elif fn == "triangle_aspect_ratio":
         exp = R.aspect_ratios()
-        compare(ctx, monitor, op, arr, exp, REL * 10 * K * K * np.abs(exp), what="abc/(8(s-a)(s-b)(s-c)) on triangles, -1 on other faces")
+        compare(ctx, monitor, op, arr, exp, rel * 10 * K * K * np.abs(exp), what="abc/(8(s-a)(s-b)(s-c)) on triangles, -1 on other faces")
     elif fn == "face_near_border":
         d = extras.get("dist", 2)
         compare(ctx, monitor, op, arr, R.near_border(d), 0.0, what="faces at dual distance < %d from a face with a border edge" % d)
@@ -633,7 +635,7 @@ def judge_surface(ctx, monitor, fn, extras, arr, R, env):
         isb = np.array([v in R.border_vertices for v in range(R.nV)])
         nrm = np.linalg.norm(arr, axis=1)
         if isb.any():
-            compare(ctx, monitor, op, nrm[isb], np.ones(int(isb.sum())), REL * 10, what="unit length on border vertices")
+            compare(ctx, monitor, op, nrm[isb], np.ones(int(isb.sum())), rel * 10, what="unit length on border vertices")
         if (~isb).any():
             ctx.obs(monitor, op, int((~isb).sum()))
             if np.any(nrm[~isb] != 0):
@@ -651,10 +653,10 @@ def judge_surface(ctx, monitor, fn, extras, arr, R, env):
         else:
             jd = np.array([all(v not in R.border_vertices for v in f) for f in R.F])
         wrapped = np.abs(np.angle(np.exp(1j * arr)))
-        compare(ctx, monitor, op, wrapped, np.zeros(R.nF), REL * 100, judged=jd, what="no curvature on a planar mesh")
+        compare(ctx, monitor, op, wrapped, np.zeros(R.nF), rel * 100, judged=jd, what="no curvature on a planar mesh")
 
 
-def judge_circumcentres(ctx, monitor, op, arr, tris, maxabs, K):
+def judge_circumcentres(ctx, monitor, op, arr, tris, maxabs, K, rel=REL, pos=None):
     """Equidistance + coplanarity of each returned point; the two facts are reported under distinct mechanisms."""
     n = len(tris)
     ctx.obs(monitor, op, n)
@@ -665,7 +667,7 @@ def judge_circumcentres(ctx, monitor, op, arr, tris, maxabs, K):
             ctx.violation(monitor, op, "non_finite_value", "%s: non-finite circumcentre" % op, element=i)
             return
         rc = geomq.circumradius(P[0], P[1], P[2])
-        tol = REL * 10 * K * (rc + maxabs)
+        tol = rel * 10 * K * rc + (rel * 10 * K * maxabs if pos is None else pos * K)
         spread, off = geomq.circumcentre_residuals(X, P[0], P[1], P[2])
         if spread > tol and (worst_eq is None or spread / tol > worst_eq[0]):
             worst_eq = (spread / tol, i, spread, tol, off)
@@ -687,6 +689,8 @@ def judge_circumcentres(ctx, monitor, op, arr, tris, maxabs, K):
 
 
 def judge_volume(ctx, monitor, fn, extras, arr, R, env):
+    rel = getattr(env, "rel", REL)                                         # 1e-9, or 1e-12 in the far-from-the-origin pass
+    postol = getattr(env, "pos_tol", None) or REL * (R.maxabs + R.lmax)    # positions: relative to the coordinates' magnitude
     if arr is None:
         return
     op = fn
@@ -694,27 +698,27 @@ def judge_volume(ctx, monitor, fn, extras, arr, R, env):
     K = 1.0 / max(math.sin(min(R.tri_min_angle, math.pi / 2)), 1e-3)
     if fn == "edge_length":
         exp = np.array([R.edge_len.get(ekey(e), np.nan) for e in env.E])
-        compare(ctx, monitor, op, arr, exp, REL * exp, what="|q-p|")
+        compare(ctx, monitor, op, arr, exp, rel * exp, what="|q-p|")
     elif fn == "edge_middle_point":
         exp = np.array([(V[a] + V[b]) / 2 for a, b in env.E])
-        compare(ctx, monitor, op, arr, exp, REL * (R.maxabs + R.lmax), what="(p+q)/2")
+        compare(ctx, monitor, op, arr, exp, postol, what="(p+q)/2")
     elif fn == "face_area":
         exp = np.array([geomq.polygon_area(V[f]) for f in env.FL])
-        compare(ctx, monitor, op, arr, exp, REL * 10 * R.lmax ** 2, what="triangle area")
+        compare(ctx, monitor, op, arr, exp, rel * 10 * R.lmax ** 2, what="triangle area")
     elif fn == "face_barycenter":
         exp = np.array([geomq.barycentre(V[f]) for f in env.FL])
-        compare(ctx, monitor, op, arr, exp, REL * (R.maxabs + R.lmax), what="mean of the face's vertices")
+        compare(ctx, monitor, op, arr, exp, postol, what="mean of the face's vertices")
     elif fn == "face_circumcenter":
         if R.tri_min_angle >= math.radians(3.0):
-            judge_circumcentres(ctx, monitor, op, arr, [V[f] for f in env.FL], R.maxabs, K)
+            judge_circumcentres(ctx, monitor, op, arr, [V[f] for f in env.FL], R.maxabs, K, rel, getattr(env, "pos_tol", None))
         else:
             ctx.note("volume_face_circumcentres_not_judged(sliver_faces)")
     elif fn == "degree":
         compare(ctx, monitor, op, arr, R.degree.astype(float), 0.0, what="number of adjacent vertices")
     elif fn == "cell_volume":
-        compare(ctx, monitor, op, arr, R.volume, REL * R.cdiam ** 3 + REL * R.volume, what="|det|/6")
+        compare(ctx, monitor, op, arr, R.volume, rel * R.cdiam ** 3 + rel * R.volume, what="|det|/6")
     elif fn == "cell_barycenter":
-        compare(ctx, monitor, op, arr, R.cbary, REL * (R.maxabs + R.lmax), what="mean of the cell's vertices")
+        compare(ctx, monitor, op, arr, R.cbary, postol, what="mean of the cell's vertices")
     elif fn == "cell_faces_on_boundary":
         compare(ctx, monitor, op, arr, R.cell_border_faces.astype(float), 0.0, what="number of faces of the cell that belong to no other cell")
 
@@ -1057,15 +1061,16 @@ def curvature_expected(R, env):
 
 
 def judge_curvature_matrices(ctx, monitor, arr, R, env):
+    rel = getattr(env, "rel", REL)
     if arr is None:
         return
     exp, ang, jd = curvature_expected(R, env)
     K = 1.0 / max(math.sin(min(R.tri_min_angle, math.pi / 2)), 0.05)
-    ok = compare(ctx, monitor, "curvature_matrices", arr, exp, REL * 10 * K * (1 + ang), judged=jd,
+    ok = compare(ctx, monitor, "curvature_matrices", arr, exp, rel * 10 * K * (1 + ang), judged=jd,
                  what="(angle between the two face normals) * outer(unit edge, unit edge), zero on border edges")
     if not ok:
         border = np.array([ekey(e) in R.border_edges for e in env.E])
-        bad = np.max(np.abs(arr - exp), axis=1) > REL * 10 * K * (1 + ang)
+        bad = np.max(np.abs(arr - exp), axis=1) > rel * 10 * K * (1 + ang)
         if border.any() and not bad[~border & jd].any():
             ctx.violation(monitor, "curvature_matrices", "nonzero_on_border_edges", "curvature_matrices is not the zero matrix on border edges")
 
